@@ -155,6 +155,9 @@ def safe_execute(engine: Any, doc: dict) -> dict:
                 break
         return res
     try:
+        # "uninitialised" memory is deterministic garbage, never the leftovers
+        # of the previous scenario (see Preempt.poison_small_blocks)
+        Preempt.poison_small_blocks()
         res = engine.execute(doc)
     except BaseException as exc:  # noqa: BLE001
         if isinstance(exc, (KeyboardInterrupt, SystemExit)):
@@ -629,11 +632,28 @@ class Preempt:
             pts.add((f, i, 1 + min(n - 1, int(w * n))))
         return pts
 
+    @staticmethod
+    def poison_small_blocks() -> None:
+        """numpy hands recently freed small blocks out again, so that
+        'uninitialised' memory (np.empty) often still holds what the same
+        computation wrote a moment ago - e.g. during the profile run - and a
+        half-filled table looks complete. Fill those free blocks with a
+        fixed garbage pattern first."""
+        try:
+            import numpy as np
+            for nbytes in range(8, 1025, 8):
+                blocks = [np.full(nbytes // 8, -7777777, dtype=np.int64)
+                          for _ in range(8)]
+                del blocks
+        except Exception:  # noqa: BLE001
+            pass
+
     def run(self, bodies: list, points: list, cap: float = 120.0) -> tuple:
         """Returns (results, number of switches); an exception raised by a
         body is returned in its place."""
         import sys
         import threading
+        self.poison_small_blocks()
         n = len(bodies)
         cv = threading.Condition()
         state = {"turn": 0, "alive": set(range(n)), "switches": 0}
